@@ -5,7 +5,7 @@
 //@ enforce: xfwd_active
 //@ replace: xfwd_handle_term xfwd_handle_err
 //@ props: C20
-//@ expect: postcondition>=11 canary=12
+//@ expect: postcondition>=10 canary=12
 #include "_unit.h"
 void harness(void)
 {
